@@ -85,7 +85,7 @@ SelectorDom == {DNone, DTstrName(P1Name), DTstrName(P2Name), DTstrName("http://U
                 DInt(2), DBstr(3, 2), DTstrBadUtf8, DTag(32, DTstrName(P2Name)), DArr(<<>>), DIndefTstr(24)}
 \* unknown extra entries (key descriptor, value descriptor)
 Extras == {KV(DInt(0), DInt(0)), KV(DInt(-1), DNull), KV(DInt(11), DBstr(3, 2)), KV(DInt(2401), DArr(<<DInt(1), DArr(<<>>)>>)), KV(DInt(-75011), DMapEmpty),
-           KV(DWide("u32"), DInt(1)), KV(DWide("n33"), DInt(1)), KV(DTstrName("psa-nonce"), DBstr(32, 2)), KV(DTstrName("Nonce"), DBstr(32, 2)),
+           KV(DWide("u32"), DInt(1)), KV(DWide("n33"), DInt(1)), KV(DWide("u63"), DInt(1)), KV(DWide("u64max"), DBstr(3, 2)), KV(DTstrName("psa-nonce"), DBstr(32, 2)), KV(DTstrName("Nonce"), DBstr(32, 2)),
            KV(DTstrName("-75008"), DBstr(32, 2)), KV(DTstrName("10"), DBstr(32, 2)), KV(DBstr(2, 2), DInt(1)), KV(DFloat("integral", 10), DBstr(32, 2)),
            KV(DBool, DBool), KV(DInt(2402), DTag(0, DTstrLen(20, 0))), KV(DInt(9), DFloat("nan", 0)), KV(DArr(<<>>), DInt(1)), KV(DNull, DNull)}
 Doc == [dom |-> [p \in {"P1", "P2"} |-> [c \in Claims |-> ItemDom(p, c)]], selector |-> SelectorDom, extras |-> Extras,
